@@ -81,7 +81,9 @@ def _reset_runs_for(prog: Program, c: ClassInfo, g: FuncInfo) -> bool:
     (without calling super()) never runs."""
     from ..callgraph import self_closure
 
-    key = (id(prog), c.qual)
+    # the cache lives on the program object: ids of collected programs are reused
+    _reach_cache = prog.__dict__.setdefault("_c03_reach_cache", {})
+    key = c.qual
     if key not in _reach_cache:
         names = {m for q in prog.mro(c.qual) if q in prog.classes for m in prog.classes[q].methods}
         reach: Set[str] = set()
@@ -245,6 +247,42 @@ def carry_memo_up(prog: Program) -> RuleResult:
                     "computed from the node's own sub-tree only",
                     f"{m.short} is memoised for the lifetime of the node but computed from {up}: once the expression is used in a second query (where it has another parent / root) "
                     f"evaluation still sees the answer for the first one (flag = x.flag; entity(x, flag) then entity(x, flag == False) loses the rows with a falsy flag)")
+    return r
+
+
+def carry_reset_reach(prog: Program) -> RuleResult:
+    """The reset at the start of an evaluation walks the nodes of the tree.  Trees grow after they were evaluated (refinement /
+    alternative / next_rule written later; a query embedded in a larger one), so the walk must see the tree as it is now: nothing it
+    reads may be memoised."""
+    from ..callgraph import self_closure
+
+    r = RuleResult("CARRY-RESET-REACH", "the reset reaches every node the tree has at the time of the evaluation", floor=1)
+    rq = prog.cls("symbolic.ResultQuantifier")
+    f = prog.method(rq.qual, "evaluate", inherited=False)
+    loops = [lp for lp in walk_local(f.node) if isinstance(lp, ast.For) and any(call_name(c) == "_reset_evaluation_state_" for c in calls_in(lp))]
+    comps = [x for x in walk_local(f.node) if isinstance(x, (ast.ListComp, ast.GeneratorExp)) and any(call_name(c) == "_reset_evaluation_state_" for c in calls_in(x))]
+    iters = [lp.iter for lp in loops] + [x.generators[0].iter for x in comps]
+    if not iters:
+        r.fail("ResultQuantifier.evaluate#reset-walk-is-fresh", site(f), "", "evaluate() does not reset the nodes of the tree in a loop: state carried on the nodes survives into the next evaluation")
+        return r
+    for it in iters:
+        if isinstance(it, ast.Name):
+            defs = [a.value for a in walk_local(f.node) if isinstance(a, ast.Assign) and len(a.targets) == 1 and isinstance(a.targets[0], ast.Name) and a.targets[0].id == it.id]
+            if len(defs) == 1:
+                it = defs[0]
+        reads = [x.attr for x in ast.walk(it) if isinstance(x, ast.Attribute) and isinstance(x.value, ast.Name) and x.value.id == f.params[0]]
+        if not reads:
+            raise AnalysisError(f"CARRY-RESET-REACH: cannot tell what the reset loop of evaluate() walks ({src(it)})")
+        memo = []
+        for nm in reads:
+            m = prog.lookup(rq.qual, nm)
+            if m is None:
+                continue
+            fs, _ = self_closure(prog, rq.qual, m, True)
+            memo += [g.short for g in fs | {m} if g.is_cached_property or g.is_lru_cache]
+        r.check(not memo, "ResultQuantifier.evaluate#reset-walk-is-fresh", site(f, it), src(it), "the node enumeration is computed on every evaluation",
+                f"the reset walks {src(it)}, which is computed through the memoised {sorted(set(memo))}: a branch that is written after the first evaluation is never reset; from the second "
+                "evaluation after the extension on its selector treats every conclusion as already produced and the written branch is silently ignored")
     return r
 
 
@@ -480,4 +518,4 @@ def reset_with_evaluation(prog: Program) -> RuleResult:
 
 def run(prog: Program, tier: str) -> List[RuleResult]:
     c1 = carry1(prog)
-    return [c1, carry2(prog), ep_handshake(prog), domain_cache(prog), reset_with_evaluation(prog), carry_shared(prog, c1), carry_abandon(prog), carry_memo_up(prog), shared_tree(prog)]
+    return [c1, carry2(prog), ep_handshake(prog), domain_cache(prog), reset_with_evaluation(prog), carry_shared(prog, c1), carry_abandon(prog), carry_memo_up(prog), shared_tree(prog), carry_reset_reach(prog)]
